@@ -50,10 +50,13 @@ def normalise(t, depth=0):
         return [([], t)]
     if _is_sum(t):
         lam = t.arg(1)
-        if not (z3.is_quantifier(lam) and lam.is_lambda()):
-            return [([], t)]
         v = z3.Int(f"v!nf{next(_cnt)}")
-        body = z3.substitute_vars(lam.body(), v)
+        if z3.is_K(lam):  # constant array: λk. c
+            body = lam.arg(0)
+        elif z3.is_quantifier(lam) and lam.is_lambda():
+            body = z3.substitute_vars(lam.body(), v)
+        else:
+            return [([], t)]
         out = []
         for bound, b in normalise(body, depth + 1):
             out.append((bound + [(v, t.arg(0))], b))
